@@ -100,6 +100,13 @@ def idx_of(row, rows=None):
     return -1
 
 
+def uninterpreted(f):
+    """a real-valued specification function about which nothing is known except that it is a function (equal
+    arguments give equal values).  Encoded as an uninterpreted function; natively it cannot be evaluated."""
+    f._uninterpreted = True
+    return f
+
+
 def opaque(f):
     """marks a specification predicate as opaque for the solver: calls are encoded as an
     uninterpreted predicate; a contract listing it under reveal= gets the defining axiom
